@@ -249,7 +249,7 @@ VEC_MEMBERS = {'size', 'data', 'empty', 'push_back', 'emplace_back', 'reserve', 
                'begin', 'end', 'cbegin', 'cend', 'back', 'front', 'operator[]', 'at'}
 STR_MEMBERS = {'length', 'size', 'assign', 'empty', 'data', 'c_str', 'begin', 'end', 'operator[]'}
 OPT_MEMBERS = {'value_or', 'has_value', 'value', 'operator bool', 'operator*', 'operator->', 'reset'}
-MAYTHROW_MODELS = {'vec_ctor_n', 'vec_reserve', 'vec_resize', 'vec_resize_val', 'opt_value', 'vec_at'}
+MAYTHROW_MODELS = {'vec_ctor_n', 'vec_reserve', 'vec_resize', 'vec_resize_val', 'vec_resize_zero', 'opt_value', 'vec_at'}
 
 
 class _NoContracts:
@@ -1840,6 +1840,12 @@ class FnTranslator:
                 # storage: nothing in the model mutates string storage in place)
                 self.hit('vector::resize(n, value)')
                 self.pre.append('vec_%s_resize_val(%s, %s, %s);' % (tg, o, self.ex(args[0]), self.rvalue_for(args[1], et)))
+                self.after_call(True)
+                return ''
+            if name == 'resize' and et[0] == 'opt':
+                # appended optionals are value-initialised: disengaged
+                self.hit('vector<optional>::resize(n): appended elements disengaged')
+                self.pre.append('vec_%s_resize_zero(%s, %s);' % (tg, o, self.ex(args[0])))
                 self.after_call(True)
                 return ''
             if name in ('reserve', 'resize'):
